@@ -149,6 +149,38 @@ func copyCellChecks(w *World, r *Report, rule string) {
 			}
 		}
 	}
+	// … and read only after it: every load of cell.item / cell.next in peek itself is dominated by the once.Do call (the
+	// Once is the only happens-before edge between the child that filled the cell and the children that read it)
+	{
+		var onceCall ssa.Instruction
+		instrs(peek, func(in ssa.Instruction) {
+			if calleeFullName(in) == "(*sync.Once).Do" {
+				onceCall = in
+			}
+		})
+		nr := 0
+		instrs(peek, func(in ssa.Instruction) {
+			fa, ok := in.(*ssa.FieldAddr)
+			if !ok {
+				return
+			}
+			f := fieldVarOfAddr(fa)
+			if !(sameField(f, fItem) || sameField(f, fNext)) {
+				return
+			}
+			for _, ref := range *fa.Referrers() {
+				ld, ok := ref.(*ssa.UnOp)
+				if !ok {
+					continue
+				}
+				nr++
+				r.Check(onceCall != nil && instrDominates(onceCall, ld), rule, fmt.Sprintf("peek: read #%d of cell.%s follows once.Do", nr, f.Name()), ld.Pos(), "dominated by the once.Do call", "a child reads a copy-list cell without going through its sync.Once (a 'fast path' for a child that is behind): plain reads of fields another goroutine wrote inside the Once, with no happens-before edge — a data race between Recv calls on sibling copies, which are allowed to run on different goroutines; on weakly ordered hardware the lagging copy can see a stale or half-written item")
+			}
+		})
+		if nr == 0 {
+			undecidedf("%s: peek reads no cell field", rule)
+		}
+	}
 	// a panic of the source read inside once.Do leaves the Once done and the cell empty: every other copy would then
 	// read a zero item that was never sent and a nil `next` (taken for "closed"). The filler must recover and record
 	// the panic in the cell, and still link the next cell.
